@@ -138,7 +138,7 @@ package cty
 //@   panics[C02] (or (and (not (is_dyn_ty t)) (not (is_number_ty t))) (and (not (is_dyn_ty ot)) (not (is_number_ty ot))) (and (not sc) (or (is_null val) (is_null other))))
 //@   ensures[C02] type: (is_bool_ty (vty result))
 //@   ensures[C02] known: (=> (not sc) (bool_payload result (bf_lt (bf_of val) (bf_of other))))
-//@   ensures[C01] sound: ghost ((c1i Int) (c1r Real) (c2i Int) (c2r Real)) pattern ((adm val c1i c1r) (adm other c2i c2r)) :: (=> (and (not (is_marked val)) (not (is_marked other)) (is_number_ty t) (is_number_ty ot) (adm val c1i c1r) (adm other c2i c2r) (is_known result)) (bool_payload result (x_lt c1i c1r c2i c2r)))
+//@   ensures[C01,C12] sound: ghost ((c1i Int) (c1r Real) (c2i Int) (c2r Real)) pattern ((adm val c1i c1r) (adm other c2i c2r)) :: (=> (and (not (is_marked val)) (not (is_marked other)) (is_number_ty t) (is_number_ty ot) (adm val c1i c1r) (adm other c2i c2r) (is_known result)) (bool_payload result (x_lt c1i c1r c2i c2r)))
 //@   ensures[C01] notnull: (not (is_null result))
 //@   ensures[C04] marks_kept: (forall ((k Any)) (! (=> (or (select (marks_of val) k) (select (marks_of other) k)) (select (marks_of result) k)) :pattern ((select (marks_of result) k))))
 //@   ensures[C04] nomarks: (=> (and (not (is_marked val)) (not (is_marked other))) (not (is_marked result)))
@@ -153,7 +153,7 @@ package cty
 //@   panics[C02] (or (and (not (is_dyn_ty t)) (not (is_number_ty t))) (and (not (is_dyn_ty ot)) (not (is_number_ty ot))) (and (not sc) (or (is_null val) (is_null other))))
 //@   ensures[C02] type: (is_bool_ty (vty result))
 //@   ensures[C02] known: (=> (not sc) (bool_payload result (bf_lt (bf_of other) (bf_of val))))
-//@   ensures[C01] sound: ghost ((c1i Int) (c1r Real) (c2i Int) (c2r Real)) pattern ((adm val c1i c1r) (adm other c2i c2r)) :: (=> (and (not (is_marked val)) (not (is_marked other)) (is_number_ty t) (is_number_ty ot) (adm val c1i c1r) (adm other c2i c2r) (is_known result)) (bool_payload result (x_lt c2i c2r c1i c1r)))
+//@   ensures[C01,C12] sound: ghost ((c1i Int) (c1r Real) (c2i Int) (c2r Real)) pattern ((adm val c1i c1r) (adm other c2i c2r)) :: (=> (and (not (is_marked val)) (not (is_marked other)) (is_number_ty t) (is_number_ty ot) (adm val c1i c1r) (adm other c2i c2r) (is_known result)) (bool_payload result (x_lt c2i c2r c1i c1r)))
 //@   ensures[C01] notnull: (not (is_null result))
 //@   ensures[C04] marks_kept: (forall ((k Any)) (! (=> (or (select (marks_of val) k) (select (marks_of other) k)) (select (marks_of result) k)) :pattern ((select (marks_of result) k))))
 //@   ensures[C04] nomarks: (=> (and (not (is_marked val)) (not (is_marked other))) (not (is_marked result)))
